@@ -20,6 +20,15 @@ theorem toNat_ofI_of_neg {i : Int} (h0 : i < 0) (h : -(2 ^ 256) ≤ i) : (ofI i)
   simp only [ofI, BitVec.toNat_ofNat]
   omega
 
+theorem toNat_ofI_neg_natCast {n : Nat} (h0 : 0 < n) (h : n ≤ 2 ^ 256) :
+    (ofI (-(n : Int))).toNat = 2 ^ 256 - n := by
+  simp only [ofI, BitVec.toNat_ofNat]
+  omega
+
+theorem toNat_ofI_natCast {n : Nat} (h : n < 2 ^ 256) : (ofI (n : Int)).toNat = n := by
+  simp only [ofI, BitVec.toNat_ofNat]
+  omega
+
 theorem isNeg_iff (x : W) : isNeg x = decide (2 ^ 255 ≤ x.toNat) := by
   simp [isNeg, BitVec.msb_eq_decide]
 
@@ -106,5 +115,36 @@ theorem eq_zero_iff_toNat (x : W) : x = 0#256 ↔ x.toNat = 0 := by
   constructor
   · intro h; subst h; rfl
   · intro h; apply BitVec.eq_of_toNat_eq; simpa using h
+
+/-- floor division of a negative number: ⌊−A / P⌋ = −(⌊(A−1)/P⌋ + 1) for A ≥ 1 -/
+theorem neg_ediv_natCast {A P : Nat} (hA : 1 ≤ A) (hP : 1 ≤ P) :
+    (-(A : Int)) / (P : Int) = -((((A - 1) / P + 1 : Nat)) : Int) := by
+  have hdm := Nat.div_add_mod (A - 1) P
+  have hr : (A - 1) % P < P := Nat.mod_lt _ (by omega)
+  generalize (A - 1) / P = q at hdm
+  generalize (A - 1) % P = r at hdm hr
+  have key : (-(A : Int)) / (P : Int) = -((q + 1 : Nat) : Int) ∧
+      (-(A : Int)) % (P : Int) = ((P - r - 1 : Nat) : Int) := by
+    rw [Int.ediv_emod_unique (by omega)]
+    refine ⟨?_, by omega, by omega⟩
+    have hA' : (A : Int) = (P : Int) * (q : Int) + (r : Int) + 1 := by
+      have h1 : A = P * q + r + 1 := by omega
+      have h2 : ((P * q : Nat) : Int) = (P : Int) * (q : Int) := Int.natCast_mul P q
+      omega
+    have hPr : ((P - r - 1 : Nat) : Int) = (P : Int) - (r : Int) - 1 := by omega
+    have hq : ((q + 1 : Nat) : Int) = (q : Int) + 1 := by omega
+    rw [hA', hPr, hq, Int.mul_neg, Int.mul_add, Int.mul_one]
+    omega
+  exact key.1
+
+theorem isNeg_zero : isNeg (0#256) = false := by simp [isNeg]
+
+theorem absW_eq_zero_iff (x : W) : absW x = 0#256 ↔ x = 0#256 := by
+  constructor
+  · intro h
+    by_cases hx : x = 0#256
+    · exact hx
+    · exact absurd ((eq_zero_iff_toNat _).mp h) (absW_ne_zero hx)
+  · intro h; subst h; simp [absW, isNeg_zero]
 
 end BA.Evm
